@@ -210,23 +210,6 @@ type Lat2 struct {
 	NEvals int
 }
 
-// Collect2 runs a Render2 into an in-memory buffer and returns the segments.
-func Collect2(s sdf.SDF2, r render.Render2) []*sdf.Line2 {
-	var lines []*sdf.Line2
-	out := make(chan []*sdf.Line2)
-	done := make(chan struct{})
-	go func() {
-		for ls := range out {
-			lines = append(lines, ls...)
-		}
-		close(done)
-	}()
-	r.Render(s, sdf.NewLine2Buffer(out))
-	close(out)
-	<-done
-	return lines
-}
-
 // Discover2 renders a constant field through r and returns the lattice.
 func Discover2(r render.Render2, bb sdf.Box2, neutral float64) (*Lat2, error) {
 	rec := &recorder2{bb: bb, val: neutral, pts: map[v2.Vec]int{}}
